@@ -1,5 +1,5 @@
 (* C05 -- Custom operators and token types integrate consistently.  Property theorems only. *)
-Require Import Base Token Tree Parser Registry ParserSpec RegistryProofs RenameProofs ClimbSpec ClimbProofs ClimbSpec2 ClimbProofs2.
+Require Import Base Token Tree Parser Registry ParserSpec RegistryProofs RenameProofs ClimbSpec ClimbProofs ClimbSpec2 ClimbProofs2 ClimbSpec3 ClimbProofs3.
 Require Import Gen.Tables.
 
 (* token ids: one stable id per name, distinct across names, above every built-in type *)
@@ -152,3 +152,29 @@ Theorem C05_cfg_ok_x_reachable : forall ops,
   cfg_ok_x (pb_build (snd (pb_run pbuilder_new ops))) = true.
 Proof. exact cfg_ok_x_reachable. Qed.
 Print Assumptions C05_cfg_ok_x_reachable.
+
+(* EVERY LEVEL, third part (ClimbSpec3.v): the built-in neighbours that are not binary
+   operators - member access (12), index access (12), calls (11), built-in ++ / -- (10),
+   assignment and compound assignment (2, right-associative) - next to infix operators of
+   every level, prefix and postfix operators and groups. *)
+Theorem C05_groups_by_level_y : forall cfg c semi eof,
+  cfg_ok_y cfg = true ->
+  well_grouped_y cfg c = true -> semi_ok semi = true -> t_type eof = T_EOF ->
+  exists r, parse_tokens cfg (ystmt_tokens c semi eof) = Some r /\
+            p_stmts (pr_program r) = [SExpr (yexpr c)] /\
+            pr_errors r = [] /\ pr_err_returned r = false.
+Proof. exact groups_by_level_y. Qed.
+Print Assumptions C05_groups_by_level_y.
+
+Theorem C05_cfg_ok_y_reachable : forall ops,
+  Forall (fun o => match o with
+                   | BRegInfix ty _ | BRegPostfix ty =>
+                       ty <> T_EOF /\ ty <> T_RPAREN /\ ty <> T_RBRACKET /\ ty <> T_COMMA
+                   | _ => True end) ops ->
+  cfg_ok_y (pb_build (snd (pb_run pbuilder_new ops))) = true.
+Proof. exact cfg_ok_y_reachable. Qed.
+Print Assumptions C05_cfg_ok_y_reachable.
+
+(* Uniqueness of the well_grouped_y tree of a token list (the analogue of C05_grouping_unique_x) is
+   not a theorem yet; for these trees determinism of the parser gives: at most one well-grouped tree
+   per token list can satisfy C05_groups_by_level_y's conclusion up to the tokens yexpr drops. *)
